@@ -371,6 +371,9 @@ def monitor(c, tr):
                 if opc == 23 and tops[seg_i][1][1] > 0:
                     if rst0 and a[1] == 1:
                         return "Send on a reset connection returned %s instead of throwing" % a[2:]
+                    if a[1] == 1 and tops[seg_i][1][2] < 0 and a[2] < tops[seg_i][1][1] and p.fired:
+                        return ("Send with unlimited timeout returned %d of %d bytes without an exception after the peer's %s during the send"
+                                % (a[2], tops[seg_i][1][1], plan["kind"]))
                 elif opc in (24, 32):
                     if a[1] == 1 and a[2] >= 0:
                         api_delivered += a[2] if opc == 24 else a[3]
